@@ -52,6 +52,14 @@ static Tuple gen_tuple(Rng& rng)
         case 2: t.R0 = rng.loguniform(1e-3, 0.5) * t.Rmax; t.r0_class = "small"; break;
         default: t.R0 = rng.uniform(0.5, 0.95) * t.Rmax; t.r0_class = "large"; break;
         }
+        // annuli given by short decimals (what a user types): R0 and Rmax - R0 in different binades, so that
+        // R0 + (Rmax - R0) need not round back to Rmax
+        if (rng.coin(0.12)) {
+            t.R0 = rng.range(1, 15) / 10.0;
+            t.Rmax = t.R0 + rng.range(3, 50) / 10.0;
+            t.Rmax = std::round(t.Rmax * 10.0) / 10.0;
+            t.r0_class = "decimal-annulus";
+        }
     }
     // ---- sizes
     if (t.small) {
